@@ -333,8 +333,12 @@ func c23RBACAlphabet() []c23RBACSym {
 		{"create_team(newest org)", func(f *ClusterFSM, i uint64) c22Cmd {
 			return c22CreateTeam(c23Newest(f, "org"), fmt.Sprintf("team%d", i), "", c22BaseNano)
 		}},
-		{"create_role(newest team)", func(f *ClusterFSM, i uint64) c22Cmd { return c22CreateRole(c23Newest(f, "team"), "db1", "read", c22BaseNano) }},
-		{"create_mperm(newest role)", func(f *ClusterFSM, i uint64) c22Cmd { return c22CreateMPerm(c23Newest(f, "role"), "cpu", "read", c22BaseNano) }},
+		{"create_role(newest team)", func(f *ClusterFSM, i uint64) c22Cmd {
+			return c22CreateRole(c23Newest(f, "team"), "db1", "read", c22BaseNano)
+		}},
+		{"create_mperm(newest role)", func(f *ClusterFSM, i uint64) c22Cmd {
+			return c22CreateMPerm(c23Newest(f, "role"), "cpu", "read", c22BaseNano)
+		}},
 		{"create_token", func(f *ClusterFSM, i uint64) c22Cmd {
 			return c22CreateToken(c22Token(fmt.Sprintf("tok%d", i), "h1", "p1", "read", c22BaseNano))
 		}},
